@@ -411,7 +411,7 @@ impl Writer {
                 // The active file may now end with a partial entry, and nothing can be appended
                 // after that without corrupting the file, so we continue in a new active file.
                 // What is left of the failed entry in the buffer must never reach the file.
-                let fileid = self.active_fileid + 1;
+                let fileid = self.next_fileid()?;
                 let writer = LogWriter::new(log::create(utils::datafile_name(
                     self.ctx.conf.path.as_path(),
                     fileid,
@@ -463,7 +463,7 @@ impl Writer {
         // Check if active file size exceeds the max limit. This must be done as the last step of
         // the writing process, otherwise we risk corrupting the storage states.
         if self.written_bytes > self.ctx.conf.max_file_size {
-            self.new_active_datafile(self.active_fileid + 1)?;
+            self.new_active_datafile(self.next_fileid()?)?;
         }
         Ok(keydir_entry)
     }
@@ -472,7 +472,7 @@ impl Writer {
     #[tracing::instrument(level = "debug", skip(self))]
     fn merge(&mut self) -> Result<(), Error> {
         let path = self.ctx.conf.path.as_path();
-        let min_merge_fileid = self.active_fileid + 1;
+        let min_merge_fileid = self.next_fileid()?;
         let mut merge_fileid = min_merge_fileid;
         debug!(merge_fileid, "new merge file");
 
@@ -567,6 +567,13 @@ impl Writer {
 
         self.new_active_datafile(merge_fileid + 1)?;
         Ok(())
+    }
+
+    /// Return an ID that is greater than the ID of every data file in the directory, including
+    /// the files that were left behind by a merge that failed.
+    fn next_fileid(&self) -> Result<u64, Error> {
+        let max_fileid = utils::sorted_fileids(&self.ctx.conf.path)?.last();
+        Ok(max_fileid.map_or(0, |id| id + 1).max(self.active_fileid + 1))
     }
 
     /// Updates the active file ID and open a new data file with the new active ID.
